@@ -213,14 +213,20 @@ Definition opt_perm (a : option (list string)) (present : bool) (l : list string
   | None => negb present
   end.
 
+(* ExternalNameSvcs is keyed by the SERVICE, not by the upstream: the flag of a backend is also
+   set when another backend of the resource on the same service (another port / subselector) is
+   external.  [ext_shared]: the resource has such another backend. *)
 Definition res_item_case (id : Z) (fx : Fixes) (plus resolver : bool) (c : Cluster) (ns : string) (b : Backend)
+           (ext_shared : bool)
            (obs_entry : list string) (obs_extsvc : bool) (obs_servers : list string)
            (was_pushed : bool) (obs_pushed : list string) : list Z :=
   let agrees := existsb (fun c' =>
                   let e := endpoints_entry fx plus c' ns b in
-                  perm_eqb (fst e) obs_entry && Bool.eqb (snd e) obs_extsvc &&
-                  perm_eqb (rendered plus resolver (b_kind b) e) obs_servers &&
-                  opt_perm (pushed plus (b_kind b) e) was_pushed obs_pushed) (pod_orders c) in
+                  let e' := (fst e, obs_extsvc) in
+                  perm_eqb (fst e) obs_entry &&
+                  (Bool.eqb (snd e) obs_extsvc || (ext_shared && obs_extsvc && plus)) &&
+                  perm_eqb (rendered plus resolver (b_kind b) e') obs_servers &&
+                  opt_perm (pushed plus (b_kind b) e') was_pushed obs_pushed) (pod_orders c) in
   let k0 := spec_kind plus resolver c ns b obs_entry obs_extsvc obs_servers in
   let push_ok := if obs_extsvc then true
                  else if plus then was_pushed && perm_eqb obs_pushed obs_servers
